@@ -479,3 +479,38 @@ def i12(ctx):
 
 
 RULES.append(i12)
+
+
+@rule("I13", doc="the invocation add / lookup hand back carries the class's own slots and no others: semify_app_id removes a key exactly when it is not among slots(app.id) — of that very class")
+def i13(ctx):
+    crate = ctx.lib()
+    bs = [b for b in crate.by_name.get("semify_app_id", []) if b.kind != "Closure"]
+    if len(bs) != 1:
+        raise mir.AnchorMissing("EGraph::semify_app_id")
+    b = mir.inline_view(crate, bs[0])
+    p_app = [b.var_names.get(l) for l in range(1, b.argc + 1) if "AppliedId" in b.local_ty(l)]
+    rem = [c for c in b.calls if c.callee and c.callee.name in ("remove", "retain") and not b.blocks[c.bb]["cleanup"]]
+    chains = [c for c in b.calls if c.callee and c.callee.name in ("filter", "collect") and not b.blocks[c.bb]["cleanup"]]
+    if not rem and not chains:
+        raise mir.AnchorMissing("the key removal in semify_app_id")
+    for c in rem:
+        if c.callee.name != "remove":
+            continue
+        conds = [cond for e, cond in C.conditions_at(b, c.bb) if isinstance(strip_role(cond[1]) if len(cond) > 1 else None, tuple) and strip_role(cond[1])[0] == "call" and strip_role(cond[1])[1] == "contains"]
+        ok = False
+        why = "no membership test in front of the removal"
+        for cond in conds:
+            r = strip_role(cond[1])
+            setr = strip_role(r[3][0])
+            own = isinstance(setr, tuple) and setr[0] == "call" and setr[1] == "slots" and any(role_str(strip_role(a)) == "%s.id" % p for a in setr[3] for p in p_app if p)
+            samekey = strip_role(r[3][1]) == strip_role(b.role_of_operand(c.args[1])) if len(r[3]) > 1 and len(c.args) > 1 else False
+            if cond[0] == "false" and own and samekey:
+                ok = True
+            else:
+                why = "tested: %s %s" % (cond[0], role_str(r)[:70])
+        ctx.check(ok, "semify-removes-non-class-slots", "a key is removed exactly when slots(app.id) does not contain it", "semify_app_id removes a key of the invocation without `!slots(app.id).contains(key)` for that key and that class (%s): redundant slots stay in returned invocations, or class slots are stripped" % why, where_of(b, c.bb))
+    for l in C.iterator_loops(b):
+        ctx.check(C.loop_exhaustive(b, l), "semify-visits-all-keys", "every key of the invocation is examined", "semify_app_id can stop before it has examined every key", where_of(b, l[0]))
+
+
+RULES.append(i13)
